@@ -23,7 +23,7 @@ from unyt import unyt_array, unyt_quantity
 from unyt.unit_object import Unit
 
 # ---- operand kinds ------------------------------------------------------------------------------------
-KINDS = ["same", "other", "diff", "dimless", "pct", "bscalar", "barray", "zero", "qlist"]
+KINDS = ["same", "other", "diff", "dimless", "pct", "bscalar", "barray", "zero", "qlist", "empty", "qmixlist"]
 # (anchor unit, other unit of the same dimension, unit of a different dimension)
 DIM_TRIPLES_QUICK = [("m", "km", "s"), ("m", "cm", "erg"), ("g", "kg", "degree"), ("K", "R", "m")]
 SHAPES = ["scalar", "array", "bcast"]
@@ -57,6 +57,10 @@ def mk(kind, triple, shape, side, seed=0):
         return np.zeros(np.shape(data)) if side == 0 else [0.0] * 3
     if kind == "qlist":
         return [unyt_quantity(v, ud) for v in vals]
+    if kind == "empty":
+        return unyt_array(np.array([], dtype=float), ud)  # nothing in it, but it still has the other dimension
+    if kind == "qmixlist":
+        return [unyt_quantity(vals[0], u), 5.0, unyt_quantity(vals[2], u)]  # a non-zero bare number among quantities
     raise ValueError(kind)
 
 
@@ -65,15 +69,17 @@ def rdim(kind, triple):
     u, uo, ud = triple
     if kind in ("same", "other"):
         return dim_of(Unit(u).dimensions)
-    if kind in ("diff", "qlist"):
+    if kind in ("diff", "qlist", "empty"):
         return dim_of(Unit(ud).dimensions)
+    if kind == "qmixlist":
+        return "mixed"
     if kind in ("dimless", "pct"):
         return dim_of(1)
     return "zero" if kind == "zero" else "bare"
 
 
 def is_q(kind):
-    return kind in ("same", "other", "diff", "dimless", "pct", "qlist")
+    return kind in ("same", "other", "diff", "dimless", "pct", "qlist", "empty", "qmixlist")
 
 
 # ---- operations ------------------------------------------------------------------------------------------
@@ -167,7 +173,7 @@ def build_ops():
         ("setxor1d", "func", M, lambda x, y: np.setxor1d(_1d(x), _1d(y)), None),
         ("isin", "func", M, lambda x, y: np.isin(x, y), None),
         ("linspace", "func", M, lambda x, y: np.linspace(x, y, 4), None),
-        ("geomspace", "func", M, lambda x, y: np.geomspace(np.abs(x) + 1, np.abs(y) + 1, 4), "bothq"),
+        ("geomspace", "func", M, lambda x, y: np.geomspace(np.abs(x) + 1 * x.units, np.abs(y) + 1 * y.units, 4), "bothq"),
         ("interp", "func", M, lambda x, y: np.interp(x, np.sort(_1d(y)), np.arange(np.size(_strip(y)), dtype=float)), None),
         ("allclose", "func", "close", lambda x, y: np.allclose(x, y), None),
         ("isclose", "func", "close", lambda x, y: np.isclose(x, y), None),
@@ -274,6 +280,10 @@ def verdict(klass, ld, rd):
     """-> 'must_raise' | 'eq_false' | 'ne_true' | None (no C01 verdict)."""
     if klass == "close":
         return None
+    if "mixed" in (ld, rd):
+        # a list holding quantities AND a non-zero bare number: the bare number is dimensionless, the list is inconsistent
+        other = rd if ld == "mixed" else ld
+        return "must_raise" if klass == "arith" and not isinstance(other, str) else None
     lq = not isinstance(ld, str)
     rq = not isinstance(rd, str)
     if lq and rq:
@@ -318,6 +328,9 @@ def eval_case(ctx, op, lk, rk, triple, shape, seed=0):
     name, form, klass, func, _req = op
     x = mk(lk, triple, shape, 0, seed)
     y = mk(rk, triple, shape, 1, seed)
+    if _req == "reduce" and shape != "scalar":
+        # an array (1-d or 2-d) reduced with a scalar start value
+        y = mk(rk, triple, "scalar", 1, seed)
     if not admissible(op, lk, rk, x, y):
         ctx.count("filtered_inadmissible")
         return
@@ -327,9 +340,11 @@ def eval_case(ctx, op, lk, rk, triple, shape, seed=0):
         # a plain list of quantities against bare data never reaches unyt's dispatch (NumPy converts
         # the list itself): nothing unyt could refuse
         v = None
-    if "qlist" in (lk, rk) and klass not in ("arith", "order", "eq", "ne"):
+    if ("qlist" in (lk, rk) or "qmixlist" in (lk, rk)) and klass not in ("arith", "order", "eq", "ne"):
         # array functions hand a plain list to NumPy, which converts it before unyt sees it
         v = None
+    if "empty" in (lk, rk) and (isinstance(ld, str) or isinstance(rd, str)):
+        v = None  # an empty quantity against bare data: no number is combined with any other, and unyt reads "no non-zero element" as zero
     if name == "copyto":
         v = None  # a full copy makes dst an exact copy of src (numbers and unit): nothing is combined
     if v == "must_raise" and klass in ("convert", "into") and _em_counterparts(ld, rd):
